@@ -4,7 +4,7 @@
    Pseudo-spectral products on the N-grid are circular convolutions (convolution theorem, C03_convolution_theorem, per axis);
    the documented products of band-limited fields are linear convolutions.  All theorems are for every D, every N, every state. *)
 From Coq Require Import ZArith QArith List Bool Lia.
-From EXV Require Import Base.Scalar Base.FieldLemmas Layout.Freq Layout.FreqProofs DFT.DFT1 Nonlin.Conv Nonlin.ConvProofs Nonlin.Terms Nonlin.TermsProofs IC.Normalize DFT.DFTD.
+From EXV Require Import Base.Scalar Base.FieldLemmas Layout.Freq Layout.FreqProofs DFT.DFT1 Nonlin.Conv Nonlin.ConvProofs Nonlin.Terms Nonlin.TermsProofs IC.Normalize DFT.DFTD DFT.BandLink.
 Import ListNotations.
 Local Open Scope fld_scope.
 Ltac splits := repeat match goal with |- _ /\ _ => split end.
@@ -39,6 +39,19 @@ Theorem C03_convolution_theorem_any_dimension : forall (F : FieldT) (n : nat) (w
   dftD n D w (fun j => u j * v j) k = cconvD n D (dftD n D w u) (dftD n D w v) k / npts F D n.
 Proof. intros F n w w' Hn H1 H2 H3 D u v k Hl Hk. apply (dftD_convolution F n w w'); try assumption. split; assumption. Qed.
 Print Assumptions C03_convolution_theorem_any_dimension.
+
+(* the chain from the FFT contract to the product model: for band-masked spectra U, V on signed wavenumbers, u = irfftn U, v = irfftn V
+   (D-fold inverse transform on the n^D grid), the band-restricted transform of the pointwise product u v at stored index k is the
+   model's prod2 U V at the signed wavenumber of k - every D, every n = N with a primitive root, every cutoff with 2K < N *)
+Theorem C03_fft_product_is_the_model_product : forall (F : FieldT) (n : nat) (Kc : Z) (w w' : F),
+  (0 < n)%nat -> (0 <= Kc)%Z -> (2 * Kc < Z.of_nat n)%Z ->
+  fpow w n = 1 -> (forall m, (0 < m < n)%nat -> fpow w m <> 1) -> w * w' = 1 ->
+  forall (D : nat) (U V : field F) (k : list nat), length k = D -> Forall (fun b => (b < n)%nat) k ->
+  let u := idftI n D w' (on_grid F n Kc U) in
+  let v := idftI n D w' (on_grid F n Kc V) in
+  (if in_band Kc (sgn n k) then dftD n D w (fun j => u j * v j) k else 0) = prod2 F D (Z.of_nat n) Kc U V (sgn n k).
+Proof. intros F n Kc w w' Hn HK H2K H1 H2 H3 D U V k Hl Hk. apply (fft_product_is_prod2 F n Hn Kc HK H2K w w' H1 H2 H3). split; assumption. Qed.
+Print Assumptions C03_fft_product_is_the_model_product.
 
 (* with the cutoff of the code, the pseudo-spectral product equals the alias-free product on the retained band
    and vanishes outside it: quadratic with 3K < N, cubic with 4K < N *)
